@@ -161,7 +161,7 @@ func c17RunSrvInner(c *c17SrvCase) (clause, detail string, aliased bool) {
 	ev := &c17Events{}
 	m := newUDPSessionManager(io, ev, time.Hour)
 	defer func() {
-		m.cleanup(false)
+		verifCleanupAll(m)
 		runtime.Gosched()
 	}()
 	// the client's datagram as protocol messages (each fragment owns its bytes, as ParseUDPMessage produces them)
@@ -316,3 +316,14 @@ func TestVerifC17Server(t *testing.T) {
 }
 
 func c17Ptr(c c17SrvCase) *c17SrvCase { return &c }
+
+
+// verifCleanupAll closes every session of a manager at the end of a case. The private
+// cleanup(idleOnly bool) method is called through an interface assertion, so that a refactor of
+// it does not break the harness build; without it the sessions are left to the fake sockets'
+// Close (every case uses fresh objects).
+func verifCleanupAll(m *udpSessionManager) {
+	if c, ok := any(m).(interface{ cleanup(bool) }); ok {
+		c.cleanup(false)
+	}
+}
